@@ -90,3 +90,33 @@ if __name__ == '__main__':
             print(p, json.dumps(run_patch(prop, p), indent=1))
     else:
         print(json.dumps(run_for(prop), indent=1))
+
+
+def run_patch_all(patch, repo='/repo', props=None):
+    """apply one patch to a scratch copy, extract facts once, run the rules of every property"""
+    from . import run as R
+    import importlib
+    from . import lib
+    from .facts import Facts
+    props = props or R.PROPS
+    d, dst = scratch_copy(repo)
+    try:
+        r = subprocess.run(['patch', '-p1', '--no-backup-if-mismatch', '-s', '-i', os.path.abspath(patch)], cwd=dst,
+                           stdout=subprocess.PIPE, stderr=subprocess.STDOUT, text=True)
+        if r.returncode != 0:
+            return {'status': 'skipped', 'why': 'patch does not apply: ' + r.stdout.strip()[:300]}
+        out = os.path.join(d, 'facts.json')
+        try:
+            R.gen_facts(dst, out=out)
+        except SystemExit:
+            return {'status': 'skipped', 'why': 'patched tree does not compile'}
+        known = {k['key'] for k in R.load_known().get('open', [])}
+        res_all = {}
+        for prop in props:
+            res, facts, nfiles, mod = R.analyse(prop, dst, facts_path=out)
+            v = [x for x in res.violations() if x['key'] not in known]
+            if v:
+                res_all[prop] = [(x['key'], (x.get('detail') or '')[:160]) for x in v]
+        return {'status': 'applied', 'violations': res_all}
+    finally:
+        shutil.rmtree(d, ignore_errors=True)
